@@ -1,6 +1,7 @@
 package parser
 
 import (
+	"strings"
 	"github.com/sboehler/knut/lib/syntax/directives"
 
 	v "github.com/sboehler/knut/lib/zzverif"
@@ -71,6 +72,17 @@ func (w *zzWalker) addons(a directives.Addons, parent directives.Range) {
 		w.date(a.Accrual.Start, a.Accrual.Range)
 		w.date(a.Accrual.End, a.Accrual.Range)
 		w.in(a.Accrual.Account.Range, a.Accrual.Range, "accrual-account")
+	}
+	// each annotation's text is its own annotation: it starts at its keyword and does not reach into its sibling
+	pr, ar := a.Performance.Range, a.Accrual.Range
+	if !a.Performance.Empty() && 0 <= pr.Start && pr.Start <= pr.End && pr.End <= w.n {
+		v.Assert(strings.HasPrefix(w.text[pr.Start:pr.End], "@performance"), "annotation-text-is-its-own-annotation")
+	}
+	if !a.Accrual.Empty() && 0 <= ar.Start && ar.Start <= ar.End && ar.End <= w.n {
+		v.Assert(strings.HasPrefix(w.text[ar.Start:ar.End], "@accrue"), "annotation-text-is-its-own-annotation")
+	}
+	if !a.Performance.Empty() && !a.Accrual.Empty() {
+		v.Assert(pr.End <= ar.Start || ar.End <= pr.Start, "annotations-disjoint")
 	}
 }
 
@@ -277,6 +289,8 @@ var zzTemplates = []string{
 	15: "2021-01-01 \"d\"\nA B 1 C\n\x00 D 2 E\n",
 	16: "2021-01-01 \"d\"\n$a\x00 B 1 C\n",
 	17: "2021-01-01 open A\x00",
+	18: "@accrue monthly 2021-01-01 2021-03-01 A:B\n@performance(\x00)\n2021-01-01 \"d\"\nA B 1 C\n",
+	19: "@performance(U)\n@accrue monthly 2021-01-01 2021-03-01 A:B\x00\n2021-01-01 \"d\"\nA B 1 C\n",
 }
 
 // VerifParseTemplate: a valid directive text with a hole of k symbolic bytes.
